@@ -23,6 +23,32 @@ import (
 //
 // Used by middleware/cache in Stage 2; lives here so middleware/edns
 // and middleware/cache share one definition.
+// TailoredButUnreadable reports a response whose subnet option declares a
+// non-zero SCOPE that ReadResponseScope cannot turn into a prefix (unknown
+// family, family and address disagreeing, no usable address). The authority
+// still tailored the answer to somebody: "no scope" must not be read as a
+// global answer in that case, or the answer obtained for one subnet is stored
+// under the shared key and served to every client.
+func TailoredButUnreadable(resp *dns.Msg) bool {
+	if resp == nil {
+		return false
+	}
+	opt := resp.IsEdns0()
+	if opt == nil {
+		return false
+	}
+	for _, o := range opt.Option {
+		if sub, ok := o.(*dns.EDNS0_SUBNET); ok {
+			if sub.SourceScope == 0 {
+				return false
+			}
+			_, readable := ReadResponseScope(resp)
+			return !readable
+		}
+	}
+	return false
+}
+
 func ReadResponseScope(resp *dns.Msg) (netip.Prefix, bool) {
 	if resp == nil {
 		return netip.Prefix{}, false
